@@ -85,9 +85,17 @@ fn gen_file(rng: &mut Rng, stem: &str, pansn_samples: Option<Vec<String>>, is_re
     let base: Vec<u8> = (0..base_len).map(|_| b"ACGT"[rng.below(4) as usize]).collect();
     for g in groups {
         let nrec = rng.usize(1, 5);
+        let mut prev_first_word: Option<String> = None;
         for _ in 0..nrec {
             ordinal += 1;
-            let header = rand_header(rng, g.as_deref(), ordinal);
+            let mut header = rand_header(rng, g.as_deref(), ordinal);
+            // records of one sample whose header lines share the first word and differ only in
+            // the description (">ctg1 haplotype=1" / ">ctg1 haplotype=2"): different records
+            if let (Some(w), true) = (&prev_first_word, rng.chance(1, 4)) {
+                header = format!("{} alt={}", w, ordinal);
+                features.push("headers_sharing_the_first_word");
+            }
+            prev_first_word = header.split(' ').next().map(|x| x.to_string());
             bytes.push(b'>');
             bytes.extend_from_slice(header.as_bytes());
             bytes.extend_from_slice(nl);
